@@ -246,12 +246,13 @@ class Channel(BaseChannel):
         """
         if self.exceptions:
             try:
-                if self.is_open:
+                exception = self.exceptions[0]
+                if self.is_open or isinstance(exception, AMQPMessageError):
                     # Atomic: each queued error is raised by one caller only.
-                    exception = self.exceptions.pop(0)
-                else:
-                    exception = self.exceptions[0]
-            except IndexError:
+                    # A returned message is reported once, also on a closed
+                    # channel, so that it does not hide the close reason.
+                    self.exceptions.remove(exception)
+            except (IndexError, ValueError):
                 # Another thread has just taken it.
                 return
             raise exception
